@@ -2,6 +2,7 @@ import BbRe.Lemmas.GoHeapOps
 import BbRe.Lemmas.FairWalk
 import BbRe.Lemmas.FairHandoff
 import BbRe.Lemmas.FairExamples
+import BbRe.Lemmas.FairReal
 /-!
 # C04 — the scheduler hands work out in the documented fair order
 
@@ -123,6 +124,14 @@ example : pop natLess #[1, 4, 1, 7, 5] = (#[1, 4, 5, 7], some 1) := by decide
 /-- The exact score order `(executing+1)^100 · 2^priority` is a strict weak order. -/
 theorem scoreLt_strictWeak : StrictWeak (fun (a b : Nat × Int) => scoreLt a.1 a.2 b.1 b.2) :=
   BbRe.Lemmas.Fair.scoreLt_strictWeak
+
+/-- The exact integer order is the documented real-valued one: `scoreLt` holds iff
+`(executing₁ + 1) · 2^(priority₁/100) < (executing₂ + 1) · 2^(priority₂/100)` over the reals
+(`S = (executingWorkersCount + 1) · b^priority`, `b = 2^0.01`, comment of `isPreferred`). -/
+theorem scoreLt_iff_real (e₁ : Nat) (p₁ : Int) (e₂ : Nat) (p₂ : Int) :
+    scoreLt e₁ p₁ e₂ p₂ = true ↔
+      ((e₁ : ℝ) + 1) * (2 : ℝ) ^ ((p₁ : ℝ) / 100) < ((e₂ : ℝ) + 1) * (2 : ℝ) ^ ((p₂ : ℝ) / 100) :=
+  scoreLt_iff_realScore e₁ p₁ e₂ p₂
 
 /-- `queuedChildrenHeap.Less` (score, then least recently started) is a strict weak order. -/
 theorem childLess_strictWeak : StrictWeak childLess := BbRe.Lemmas.Fair.childLess_strictWeak
